@@ -255,6 +255,25 @@ func runOwn(o *opts) {
 		stg.WorkingDir = wd
 		err := stg.Validate("s.yaml")
 		rec := &StageRec{Cmd: cmd, Wd: wd, In: ins, Out: outs}
+		// ... and as the tool meets it: a stage file written by hand and loaded with stage.FromFile
+		// (which validates). Only where the file says exactly what the record says (paths that
+		// FromFile's cleaning leaves alone); every flag of every artifact must survive the loading.
+		clean := wd == "" || wd == "sub"
+		for _, a := range append(append([]Art{}, ins...), outs...) {
+			if filepath.Clean(a.Path) != a.Path || strings.HasPrefix(a.Path, "/") {
+				clean = false
+			}
+		}
+		if clean {
+			must(os.WriteFile("s.yaml", []byte(stageYAML(rec)), 0o644))
+			_, ferr := stage.FromFile("s.yaml")
+			os.Remove("s.yaml")
+			if (ferr == nil) != (err == nil) {
+				s.count("validate:FromFile-and-Validate-disagree")
+			}
+			err = ferr
+			s.count("validate:through-FromFile")
+		}
 		vcases = append(vcases, fmt.Sprintf("mkVal %d (%s) (%s) %s", id, cxs("s.yaml"), rec.coq(), cbool(err == nil)))
 		s.count(fmt.Sprintf("validate:%v", err == nil))
 		s.CaseIndex[fmt.Sprint(id)] = map[string]interface{}{"validate": rec.coq(), "ok": err == nil}
